@@ -101,7 +101,16 @@ struct Res1
 
 union Err1
     e1
+        "a tag without a value still has a doc: :type:`VoidDocType`, :route:`r_void_doc`"
     e2 DocRefs
+
+struct VoidDocType
+    vd Int32
+
+struct VoidDocArg
+    va String
+
+route r_void_doc(VoidDocArg, Void, Void)
 
 route r1(Arg1, Res1, Err1)
     "Route doc with :type:`Unused2`."
@@ -113,6 +122,11 @@ route r_doc(Leaf, Void, Void)
 route r_void(Void, Void, Void)
 
 route r_far(w2.Far, w2.FarU, Void)
+
+struct FarChild extends w2.FarBase
+    fc Int32
+
+route r_farchild(FarChild, Void, Void)
 '''),
     ('w2.stone', '''namespace w2
 
@@ -133,6 +147,13 @@ struct FarLeaf
 struct FarUnused
     x Int32
 
+struct FarBase
+    fb Int32
+        "a field inherited across namespaces; its doc is read in its own namespace: :type:`FarDocOnly`"
+
+struct FarDocOnly
+    z Int32
+
 alias FarAlias = FarUnused
 
 route r2(FarDeep, Void, Void)
@@ -141,11 +162,11 @@ route r2b(Void, Far, Void)
 '''),
 ]
 
-ROUTES = {'w1': ['r1', 'r1:2', 'r_doc', 'r_void', 'r_far', 'r_only_doc', 'r_alias_doc'], 'w2': ['r2', 'r2b']}
+ROUTES = {'w1': ['r1', 'r1:2', 'r_doc', 'r_void', 'r_far', 'r_only_doc', 'r_alias_doc', 'r_void_doc', 'r_farchild'], 'w2': ['r2', 'r2b']}
 TYPES = {'w1': ['NsDoc', 'Leaf', 'Unused1', 'Unused2', 'Parent', 'Child', 'Tree', 'TreeA', 'TreeB', 'Tags', 'WithDefault',
                 'DocRefs', 'ViaAlias', 'Arg1', 'Res1', 'Err1', 'AliasDocType', 'AliasDocArg', 'AliasDocDeep', 'OnlyDocArg',
-                'OnlyDocCursor', 'OnlyDocRes', 'OnlyDocErr'],
-         'w2': ['Far', 'FarU', 'FarDeep', 'FarLeaf', 'FarUnused']}
+                'OnlyDocCursor', 'OnlyDocRes', 'OnlyDocErr', 'VoidDocType', 'VoidDocArg', 'FarChild'],
+         'w2': ['Far', 'FarU', 'FarDeep', 'FarLeaf', 'FarUnused', 'FarBase', 'FarDocOnly']}
 
 
 def gen_whitelist(rng):
